@@ -30,6 +30,8 @@ pub struct Rem {
     pub member_level: bool,
     pub targets: Vec<u8>,
     pub ctx: Clock,
+    /// dot of the update that carried this (nested) remove; None for a top-level remove
+    pub carrier: Option<DotT>,
 }
 
 #[derive(Clone, Debug, Default)]
@@ -56,7 +58,7 @@ fn flatten(sem: &Sem, path: &mut Vec<u8>, op: usize, outer: Option<DotT>, st: &m
             }
         }
         Sem::SetRm { ctx, members } => {
-            st.rems.push(Rem { op, path: path.clone(), member_level: true, targets: members.clone(), ctx: ctx.clone() });
+            st.rems.push(Rem { op, path: path.clone(), member_level: true, targets: members.clone(), ctx: ctx.clone(), carrier: outer });
             if let Some(d) = outer {
                 st.leaves.push(Leaf { op, dot: d, path: path.clone(), payload: Payload::Bare });
             }
@@ -70,7 +72,7 @@ fn flatten(sem: &Sem, path: &mut Vec<u8>, op: usize, outer: Option<DotT>, st: &m
             path.pop();
         }
         Sem::MapRm { ctx, keys } => {
-            st.rems.push(Rem { op, path: path.clone(), member_level: false, targets: keys.clone(), ctx: ctx.clone() });
+            st.rems.push(Rem { op, path: path.clone(), member_level: false, targets: keys.clone(), ctx: ctx.clone(), carrier: outer });
             if let Some(d) = outer {
                 st.leaves.push(Leaf { op, dot: d, path: path.clone(), payload: Payload::Bare });
             }
